@@ -159,6 +159,21 @@ Lemma reader_guards_present :
   charstr_requires_token = true /\ scan_name_handles_at = true.
 Proof. vm_compute. repeat split; reflexivity. Qed.
 
+(* scan_name rejects an empty label inside a name (two consecutive dots) *)
+Lemma empty_label_rejected : name_rejects_empty_label = true.
+Proof. vm_compute. reflexivity. Qed.
+
+(* a..b. 1 IN A 1.2.3.4 *)
+Definition w_dots : list N := [97;46;46;98;46;32;49;32;73;78;32;65;32;49;46;50;46;51;46;52;10].
+
+Theorem empty_label_fixed : name_rejects_empty_label = true -> read_file w_dots = ([], EErr 3).
+Proof. intros H. revert H. vm_compute. intros H; first [discriminate H | reflexivity]. Qed.
+
+(* without the check the owner has a root label in its middle: 01 61 00 01 62 00 *)
+Theorem empty_label_refuted : name_rejects_empty_label = false ->
+  read_file w_dots = ([ERecord [1; 97; 0; 1; 98; 0] 1 1 1 [1; 2; 3; 4]], EEof).
+Proof. intros H. revert H. vm_compute. intros H; first [discriminate H | reflexivity]. Qed.
+
 Theorem items_total_all file :
   match snd (items_of file) with EEof | EErr _ => True | _ => False end.
 Proof. apply Proofs2.items_total. apply reader_guards_present. Qed.
